@@ -36,8 +36,13 @@ MANIFEST = dict(
          "schema 1.x the only present cue/loop that reads back absent has offset exactly -1.0 and the read-back value is "
          "stated exactly (zero optional fields read back absent: known finding with _partial/_counterexample); the "
          "zlib_compress loops, modelled over an abstract deflate oracle with an explicit call contract, provably collect "
-         "all output of all calls, consume the whole payload and stop only after Z_FINISH answered Z_STREAM_END (recorded "
-         "deflate() calls of the real library are replayed through that Model every run). The Model is tied to the "
+         "all output of all calls, consume the whole payload and stop only after Z_FINISH answered Z_STREAM_END; the "
+         "input-chunking decision is in the Model exactly as the C++ makes it and it is proved, for every oracle and every "
+         "payload length (exact multiples of 16384 included), that the call log follows chunkPlan(length) and that the "
+         "last window and only the last carries Z_FINISH; zlib_uncompress(zlib_compress p) = p under the joint zlib "
+         "contract (recorded deflate() calls of the real library — payload sizes k*16384-1/0/+1 of every compressed kind, "
+         "deflate output of exactly j*16384 bytes — are judged against the chunk plan and replayed through that Model "
+         "every run). The Model is tied to the "
          "working tree on every run: generated values are encoded and decoded by the real library (sanitizer build) and "
          "by the Model, payloads and results compared byte for byte, and a direct oracle states decode(encode v) = v on "
          "the library's own answers.",
